@@ -284,6 +284,7 @@ pub fn run_child<F: FnOnce(&Ctx) -> Shard>(args: &[String], f: F) -> i32 {
         return 2;
     }
     install_panic_hook();
+    evidence::set_partial_out(std::path::Path::new(&args[6]));
     let soft: u64 = args[5].parse().unwrap_or(30);
     let ctx = Ctx {
         property: args[0].clone(),
